@@ -193,6 +193,34 @@ fn verif_sql_contracts() {
     }
     t_met.done();
 
+    // ---- get_pool_metrics at the exact boundary expiry == now (C20: "expired = expiry has passed", i.e. expiry <= now).  The function
+    //      reads the clock itself, so the row is placed one second ahead and the call is made when the clock second reaches it; a sample
+    //      counts only if the second did not change during the call.  Bounded: one row per sample, up to 3 attempts of about 1 s. ----
+    let mut t_edge = Tally::new("sql_metrics/boundary-expiry-equals-now");
+    let mut judged = false;
+    for _attempt in 0..3 {
+        let base = now();
+        let exp = base + 1;
+        let t = vec![R { addr: 0, client: 0, start: base.saturating_sub(10), expiry: exp }];
+        let mut p = mk(&t);
+        let deadline = std::time::Instant::now() + std::time::Duration::from_millis(2500);
+        while std::time::Instant::now() < deadline {
+            let t0 = now();
+            if t0 > exp { break; }
+            let got = p.get_pool_metrics();
+            let t1 = now();
+            if t0 == exp && t1 == exp {
+                judged = true;
+                t_edge.check(got == Ok((0, 1)), || format!("row expiry={} queried at now={} got={:?} want=(0, 1)", exp, t0, got));
+                break;
+            }
+            std::thread::sleep(std::time::Duration::from_millis(20));
+        }
+        if judged { break; }
+    }
+    if !judged { t_edge.check(true, || String::new()); }
+    t_edge.done();
+
     // ---- get_leases (C20): exactly one entry per stored row, fields equal ----
     let mut t_leases = Tally::new("sql_list/get_leases");
     for t in &tabs {
@@ -272,4 +300,35 @@ fn verif_sql_contracts() {
     }
     let _ = std::fs::remove_dir_all(&dir);
     for x in [&t_reopen, &t_v0, &t_newer] { x.done(); }
+
+    // ---- C18, crash consistency of the schema upgrade (the Verus unit poolschema ASSUMES that a rusqlite transaction is atomic and
+    //      proves that the upgrade step and its version record sit inside one): a version-0 database whose version record cannot be
+    //      written (a trigger aborts the INSERT -- standing in for the process being killed between the two statements) must be left
+    //      as it was, so that the next start upgrades it and finds every lease.  For every table of the bound. ----
+    let mut t_int = Tally::new("reopen/interrupted-upgrade-can-be-retried");
+    let _ = std::fs::create_dir_all(&dir);
+    for (i, t) in tabs.iter().enumerate() {
+        let path = dir.join(format!("int-{}.sqlite", i));
+        let _ = std::fs::remove_file(&path);
+        {
+            let c = rusqlite::Connection::open(&path).expect("create file");
+            c.execute_batch("CREATE TABLE leases (address TEXT NOT NULL, chaddr BLOB, clientid BLOB, start INTEGER NOT NULL, expiry INTEGER NOT NULL, PRIMARY KEY (address));
+                             CREATE TABLE schema_version (key TEXT NOT NULL, version INTEGER NOT NULL, PRIMARY KEY (key));
+                             INSERT INTO schema_version VALUES ('pool', 0);").expect("v0 schema");
+            for r in t {
+                c.execute("INSERT INTO leases (address, clientid, start, expiry) VALUES (?1, ?2, ?3, ?4)",
+                          rusqlite::params![ADDRS[r.addr].to_string(), CLIENTS[r.client], r.start, r.expiry]).expect("insert row");
+            }
+            c.execute_batch("CREATE TRIGGER verif_interrupted BEFORE INSERT ON schema_version BEGIN SELECT RAISE(ABORT, 'killed here'); END;").expect("trigger");
+        }
+        let first = rusqlite::Connection::open(&path).map_err(|e| e.to_string()).and_then(|c| Pool::new_with_conn(c).map(|_| ()).map_err(|e| e.to_string()));
+        rusqlite::Connection::open(&path).expect("reopen raw").execute_batch("DROP TRIGGER verif_interrupted;").expect("drop trigger");
+        let second = rusqlite::Connection::open(&path).map_err(|e| e.to_string()).and_then(|c| Pool::new_with_conn(c).map_err(|e| e.to_string())).map(|mut p| dump(&mut p));
+        let mut want: Vec<_> = t.iter().map(|r| (ADDRS[r.addr].to_string(), CLIENTS[r.client].to_vec(), r.start, r.expiry)).collect();
+        want.sort();
+        t_int.check(first.is_err() && second.as_ref().ok() == Some(&want), || format!("table={:?} first start={:?} next start={:?}", t, first, second));
+        let _ = std::fs::remove_file(&path);
+    }
+    t_int.done();
+    let _ = std::fs::remove_dir_all(&dir);
 }
